@@ -51,6 +51,7 @@ func goEnv(race bool) []string {
 }
 
 type target struct {
+	mainPkg   string // instrumented main package built for this target
 	pkg, file string
 	glueSrc   string // glue file in this repository
 	glueDst   string // where the overlay places it
@@ -67,12 +68,17 @@ var importMap = map[string]string{
 	"oss.terrastruct.com/util-go/xbrowser": "verif/h/vsched/fake/xbrowser",
 }
 
+const (
+	tWatch = 0
+	tBundler = 1
+)
+
 var targets = []target{
-	{pkg: "oss.terrastruct.com/d2/d2cli", file: "/repo/d2cli/watch.go",
+	{mainPkg: "./sched/instw", pkg: "oss.terrastruct.com/d2/d2cli", file: "/repo/d2cli/watch.go",
 		glueSrc: "/verif/h/sched/glue/d2cli/zz_verif_glue.go", glueDst: "/repo/d2cli/zz_verif_glue.go",
 		renames: map[string]string{"compile": "verifCompile", "net.Listen": "verifListen"},
 		sites:   []string{"watcher.handleWatch#0", "watcher.handleWatch#1", "watcher.goFunc#0"}},
-	{pkg: "oss.terrastruct.com/d2/lib/imgbundler", file: "/repo/lib/imgbundler/imgbundler.go",
+	{mainPkg: "./sched/inst46", pkg: "oss.terrastruct.com/d2/lib/imgbundler", file: "/repo/lib/imgbundler/imgbundler.go",
 		glueSrc: "/verif/h/sched/glue/imgbundler/zz_verif_glue.go", glueDst: "/repo/lib/imgbundler/zz_verif_glue.go",
 		renames: map[string]string{"os.ReadFile": "verifReadFile"},
 		sites:   []string{"runWorkers#0", "runWorkers#1", "runWorkers#2"}},
@@ -111,7 +117,7 @@ var buildMu sync.Mutex
 
 // prepare rewrites the current sources, merges the overlays and builds the instrumented binary.
 // race=true builds the pass-through binary with the race detector.
-func prepare(dir string, race bool) (*built, error) {
+func prepare(dir string, race bool, ti int) (*built, error) {
 	buildMu.Lock()
 	defer buildMu.Unlock()
 	if err := os.MkdirAll(dir, 0o755); err != nil {
@@ -126,7 +132,7 @@ func prepare(dir string, race bool) (*built, error) {
 		merged[k] = v
 	}
 	b := &built{dir: dir}
-	for _, t := range targets {
+	for _, t := range targets[ti : ti+1] {
 		out, rep, err := vinstr.Rewrite(vinstr.Config{GoBin: goBin(), ModDir: modDir, PkgPath: t.pkg, File: t.file, Overlay: uo, OverlayFile: uoFile,
 			ImportMap: importMap, RenameCalls: t.renames})
 		if err != nil {
@@ -160,7 +166,7 @@ func prepare(dir string, race bool) (*built, error) {
 		b.bin += "-race"
 		args = append(args, "-race")
 	}
-	args = append(args, "-o", b.bin, "./sched/inst")
+	args = append(args, "-o", b.bin, targets[ti].mainPkg)
 	cmd := exec.Command(goBin(), args...)
 	cmd.Dir = modDir
 	cmd.Env = goEnv(race)
@@ -200,14 +206,16 @@ func init() {
 		if len(args) > 0 {
 			dir = args[0]
 		}
-		b, err := prepare(dir, false)
-		if err != nil {
-			fmt.Fprintln(os.Stderr, "HARNESS ERROR:", err)
-			os.Exit(2)
+		for ti := range targets {
+			b, err := prepare(filepath.Join(dir, fmt.Sprint(ti)), false, ti)
+			if err != nil {
+				fmt.Fprintln(os.Stderr, "HARNESS ERROR:", err)
+				os.Exit(2)
+			}
+			for _, l := range reportSummary(b.reports) {
+				fmt.Println(l)
+			}
+			fmt.Println("binary:", b.bin)
 		}
-		for _, l := range reportSummary(b.reports) {
-			fmt.Println(l)
-		}
-		fmt.Println("binary:", b.bin)
 	}
 }
